@@ -1,121 +1,112 @@
 (* C34 - The freelist conserves pages.
    Property theorems only.  They speak about Model/Freelist.v: [run np ops] is the trace (result,
    head_page(), free_count() after every call) of the transcription of Freelist::allocate /
-   release / initialize_trunk / create_new_trunk (src/storage/freelist.rs) over a zeroed store of
-   [np] pages, for the history [ops] of release / allocate / client-write calls; TRUNK_MAX_ENTRIES,
-   TrunkHeader::is_full and the page geometry are regenerated from the source (Gen/Freelist.v).
-   The oracle predicates (disciplined, safe, count_exact, ...) know nothing about trunks:
+   release / initialize_trunk / create_new_trunk (src/storage/freelist.rs, tree at/after the
+   repair bad45b6) over a zeroed store of [np] pages, for the history [ops] of release /
+   allocate / client-write calls; TRUNK_MAX_ENTRIES, TrunkHeader::is_full and the page geometry
+   are regenerated from the source (Gen/Freelist.v).
+   The oracle predicates know nothing about trunks; they keep the abstract free bag (pages
+   released and not handed back since) and its size:
      disciplined  the client releases only pages it holds (never page 0, never a page that is
-                  still free) and writes only into pages it holds;
-     safe         every allocate() returns None or a page that was released and not handed out
-                  since (so no page is handed out twice), and no call of the client fails;
+                  still free) and writes only into pages it holds (page 0 included);
+     safe         every allocate() returns None or a member of the bag (so: previously released,
+                  not currently allocated, never handed out twice), and no call of the client fails;
+     complete     allocate() returns None only when the bag is empty;
+     reported_eq_spec  free_count() = size of the bag after every call;
+     refines_bag  = safe && complete && reported_eq_spec;
      count_exact  wherever the rest of the history only allocates until None, the reported
                   free_count() equals the number of pages those allocations returned;
-     no_bad_deref allocate() is never entered with head_page = 0, free_count > 0 while the
-                  client's data at bytes 16..24 of page 0 is non-zero. *)
+     property_ok  = not disciplined, or safe && count_exact (the three clauses of C34). *)
 From Coq Require Import ZArith List Bool.
-From TV Require Import Lib.MachInt Gen.FreelistConsts Gen.Freelist Model.Freelist.
-From TV Require Import Proof.Freelist Proof.FreelistInv Proof.FreelistTrace Corr.C34 Proof.FreelistCorr.
+From TV Require Import Lib.MachInt Gen.FreelistConsts Gen.Freelist Model.Freelist Model.FreelistV0.
+From TV Require Import Proof.Freelist Proof.FreelistInv Proof.FreelistTrace Corr.C34 Proof.FreelistCorr Proof.FreelistV0.
 Import ListNotations.
 Open Scope Z_scope.
 
-(* safety half, all histories of a disciplined client, any number of trunks *)
-Theorem alloc_safety : forall np ops, np < 2 ^ 32 ->
-  disciplined np (run np ops) = true -> no_bad_deref (run np ops) = true ->
-  safe (run np ops) = true.
-Proof. exact alloc_safety_l. Qed.
+(* DESIGN.md C34 refinement: all histories of a disciplined client, any number of trunks *)
+Theorem freelist_refines_bag : forall np ops, np < 2 ^ 32 ->
+  disciplined np (run np ops) = true -> refines_bag (run np ops) = true.
+Proof. exact freelist_refines_bag_l. Qed.
 
-(* ... and without the page-0 side condition: nothing goes wrong before allocate() dereferences
-   a page 0 that holds client data (finding F-C34-2) *)
-Theorem safety_until_page0_deref : forall np ops, np < 2 ^ 32 ->
-  disciplined np (run np ops) = true -> safe_until_deref (run np ops) = true.
-Proof. exact safe_until_deref_l. Qed.
+(* third clause: the reported free count is what the following allocations return *)
+Theorem free_count_exact : forall np ops, np < 2 ^ 32 ->
+  disciplined np (run np ops) = true -> count_exact (run np ops) = true.
+Proof. exact count_exact_l. Qed.
+
+(* ... in the direct form: from any reachable state, k successful allocations followed by None
+   means k = free_count() *)
+Theorem drain_returns_free_count : forall np ops more k, np < 2 ^ 32 ->
+  disciplined np (run np (ops ++ more)) = true ->
+  drain_count (run_from np (final np ops) more) = Some k -> k = fc (final np ops).
+Proof. exact drain_returns_free_count_l. Qed.
+
+(* the property as the comparer judges it, for every history whatsoever *)
+Theorem property_holds : forall np ops, np < 2 ^ 32 -> property_ok np (run np ops) = true.
+Proof. exact property_holds_l. Qed.
+
+(* ... on the comparer's own predicates (Corr/C34.v): wherever the implementation did what the
+   model predicts, the observed behaviour satisfies the property *)
+Theorem agreeing_case_satisfies_property : forall np ctr, np < 2 ^ 32 ->
+  model_agrees (Case np ctr) = true -> spec_ok (Case np ctr) = true.
+Proof. exact agreeing_case_satisfies_property_l. Qed.
 
 (* every history, disciplined or not: free_count() is never BELOW what the following
    allocations return *)
 Theorem count_not_under_all : forall np ops, count_not_under (run np ops) = true.
 Proof. exact count_not_under_l. Qed.
 
-(* free_count() never exceeds the number of pages released and not handed back *)
-Theorem reported_le_released : forall np ops, np < 2 ^ 32 ->
-  disciplined np (run np ops) = true -> no_bad_deref (run np ops) = true ->
-  reported_le_spec (run np ops) = true.
-Proof. exact reported_le_spec_l. Qed.
+(* HISTORICAL (Model/FreelistV0.v = allocate before the repair bad45b6): what the old code did on
+   the witnesses of the fixed findings F-C34-1 and F-C34-2 *)
+Theorem v0_free_count_exact_refuted :
+  run_v0 8 [Rel 3; Alloc] = [E (Rel 3) OOk 3 1; E Alloc ONone 0 0] /\
+  disciplined 8 (run_v0 8 [Rel 3; Alloc]) = true /\ count_exact (run_v0 8 [Rel 3; Alloc]) = false.
+Proof. exact v0_free_count_exact_refuted_l. Qed.
 
-(* the count half of the property FAILS in every reachable state that has a trunk: if after [ops]
-   head_page <> 0 and the following allocations return k pages and then None, then
-   k < free_count()  (finding F-C34-1: trunk pages are counted but never handed out) *)
-Theorem free_count_overcounts : forall np ops more k, np < 2 ^ 32 ->
-  disciplined np (run np (ops ++ more)) = true -> no_bad_deref (run np (ops ++ more)) = true ->
-  drain_count (run_from np (fuel_for np) (final np ops) more) = Some k ->
-  head (final np ops) <> 0 ->
-  k < fc (final np ops).
-Proof. exact overcount_l. Qed.
-
-(* a model trace that the oracle rejects always falls into one of the two recorded classes *)
-Theorem known_classes_cover : forall np ops, np < 2 ^ 32 ->
-  known_class_tr np (run np ops) = 0 -> property_ok np (run np ops) = true.
-Proof. exact known_classes_cover_l. Qed.
-
-(* the same, on the comparer's own predicates (Corr/C34.v): a case on which the implementation
-   did what the model predicts and that is in no recorded class satisfies the property *)
-Theorem agreeing_case_outside_known_classes : forall np ctr, np < 2 ^ 32 ->
-  model_agrees (Case np ctr) = true -> known_class (Case np ctr) = 0 -> spec_ok (Case np ctr) = true.
-Proof. exact agreeing_case_outside_known_classes_l. Qed.
-
-(* refutations (each witness is replayed on the real code: known_findings.d/C34.json) *)
-Theorem free_count_exact_refuted :
-  exists np ops, disciplined np (run np ops) = true /\ no_bad_deref (run np ops) = true /\
-                 safe (run np ops) = true /\ count_exact (run np ops) = false.
-Proof. exact free_count_exact_refuted_l. Qed.
-
-Theorem page0_deref_refuted :
-  exists np ops, disciplined np (run np ops) = true /\ safe (run np ops) = false /\
-                 run np ops = [E (Poke 0 5 1) OOk 0 0; E (Poke 0 6 7) OOk 0 0; E (Rel 3) OOk 3 1;
-                               E (Rel 4) OOk 3 2; E Alloc (OSome 4) 0 1; E Alloc (OSome 7) 0 0].
-Proof. exact page0_deref_refuted_l. Qed.
+Theorem v0_page0_deref_refuted :
+  let ops := [Poke 0 5 1; Poke 0 6 7; Rel 3; Rel 4; Alloc; Alloc] in
+  disciplined 8 (run_v0 8 ops) = true /\ safe (run_v0 8 ops) = false /\
+  run_v0 8 ops = [E (Poke 0 5 1) OOk 0 0; E (Poke 0 6 7) OOk 0 0; E (Rel 3) OOk 3 1;
+                  E (Rel 4) OOk 3 2; E Alloc (OSome 4) 0 1; E Alloc (OSome 7) 0 0].
+Proof. exact v0_page0_deref_refuted_l. Qed.
 
 (* non-vacuity: the hypotheses are met by concrete histories in which pages really come back,
-   trunks empty, head_page returns to 0 with free_count > 0, and both classes are inhabited *)
+   trunk pages themselves are handed out, and a dirty page 0 is harmless *)
 Example c34_witness_hypotheses :
-  let ops := [Rel 3; Rel 4; Rel 5; Alloc; Poke 5 5 9; Rel 5; Alloc; Alloc; Alloc; Rel 4; Alloc] in
-  disciplined 8 (run 8 ops) = true /\ no_bad_deref (run 8 ops) = true /\ safe (run 8 ops) = true /\
-  run 8 ops = [E (Rel 3) OOk 3 1; E (Rel 4) OOk 3 2; E (Rel 5) OOk 3 3; E Alloc (OSome 5) 3 2;
-               E (Poke 5 5 9) OOk 3 2; E (Rel 5) OOk 3 3; E Alloc (OSome 5) 3 2; E Alloc (OSome 4) 0 1;
-               E Alloc ONone 0 0; E (Rel 4) OOk 4 1; E Alloc ONone 0 0].
+  let ops := [Poke 0 5 1; Poke 0 6 7; Rel 3; Rel 4; Rel 5; Alloc; Poke 5 5 9; Rel 5; Alloc; Alloc; Alloc; Alloc; Rel 4; Alloc] in
+  disciplined 8 (run 8 ops) = true /\ refines_bag (run 8 ops) = true /\ count_exact (run 8 ops) = true /\
+  run 8 ops = [E (Poke 0 5 1) OOk 0 0; E (Poke 0 6 7) OOk 0 0;
+               E (Rel 3) OOk 3 1; E (Rel 4) OOk 3 2; E (Rel 5) OOk 3 3; E Alloc (OSome 5) 3 2;
+               E (Poke 5 5 9) OOk 3 2; E (Rel 5) OOk 3 3; E Alloc (OSome 5) 3 2; E Alloc (OSome 4) 3 1;
+               E Alloc (OSome 3) 0 0; E Alloc ONone 0 0; E (Rel 4) OOk 4 1; E Alloc (OSome 4) 0 0].
 Proof. vm_compute. repeat split. Qed.
 
-Example c34_witness_overcount :
-  disciplined 8 (run 8 ([Rel 3; Rel 4; Rel 5] ++ [Alloc; Alloc; Alloc])) = true /\
-  no_bad_deref (run 8 ([Rel 3; Rel 4; Rel 5] ++ [Alloc; Alloc; Alloc])) = true /\
-  drain_count (run_from 8 (fuel_for 8) (final 8 [Rel 3; Rel 4; Rel 5]) [Alloc; Alloc; Alloc]) = Some 2 /\
+Example c34_witness_drain :
+  disciplined 8 (run 8 ([Rel 3; Rel 4; Rel 5] ++ [Alloc; Alloc; Alloc; Alloc])) = true /\
+  drain_count (run_from 8 (final 8 [Rel 3; Rel 4; Rel 5]) [Alloc; Alloc; Alloc; Alloc]) = Some 3 /\
   head (final 8 [Rel 3; Rel 4; Rel 5]) = 3 /\ fc (final 8 [Rel 3; Rel 4; Rel 5]) = 3.
 Proof. vm_compute. repeat split. Qed.
 
-Example c34_witness_classes :
-  known_class_tr 8 (run 8 [Rel 3; Alloc]) = 1 /\
-  known_class_tr 8 (run 8 [Poke 0 5 1; Poke 0 6 7; Rel 3; Rel 4; Alloc; Alloc]) = 2 /\
-  known_class_tr 8 (run 8 [Alloc; Alloc]) = 0 /\ property_ok 8 (run 8 [Alloc; Alloc]) = true /\
-  (* undisciplined (double free): the property says nothing *)
-  disciplined 8 (run 8 [Rel 3; Rel 3]) = false /\ property_ok 8 (run 8 [Rel 3; Rel 3]) = true.
+Example c34_witness_undisciplined :
+  (* double free: the property says nothing (and the code does hand page 3 out twice) *)
+  disciplined 8 (run 8 [Rel 3; Rel 3; Alloc; Alloc]) = false /\
+  property_ok 8 (run 8 [Rel 3; Rel 3; Alloc; Alloc]) = true /\
+  safe (run 8 [Rel 3; Rel 3; Alloc; Alloc]) = false.
 Proof. vm_compute. repeat split. Qed.
 
-Check alloc_safety : forall np ops, np < 2 ^ 32 -> disciplined np (run np ops) = true -> no_bad_deref (run np ops) = true -> safe (run np ops) = true.
-Check safety_until_page0_deref : forall np ops, np < 2 ^ 32 -> disciplined np (run np ops) = true -> safe_until_deref (run np ops) = true.
+Check freelist_refines_bag : forall np ops, np < 2 ^ 32 -> disciplined np (run np ops) = true -> refines_bag (run np ops) = true.
+Check free_count_exact : forall np ops, np < 2 ^ 32 -> disciplined np (run np ops) = true -> count_exact (run np ops) = true.
+Check drain_returns_free_count : forall np ops more k, np < 2 ^ 32 -> disciplined np (run np (ops ++ more)) = true -> drain_count (run_from np (final np ops) more) = Some k -> k = fc (final np ops).
+Check property_holds : forall np ops, np < 2 ^ 32 -> property_ok np (run np ops) = true.
+Check agreeing_case_satisfies_property : forall np ctr, np < 2 ^ 32 -> model_agrees (Case np ctr) = true -> spec_ok (Case np ctr) = true.
 Check count_not_under_all : forall np ops, count_not_under (run np ops) = true.
-Check reported_le_released : forall np ops, np < 2 ^ 32 -> disciplined np (run np ops) = true -> no_bad_deref (run np ops) = true -> reported_le_spec (run np ops) = true.
-Check free_count_overcounts : forall np ops more k, np < 2 ^ 32 -> disciplined np (run np (ops ++ more)) = true -> no_bad_deref (run np (ops ++ more)) = true -> drain_count (run_from np (fuel_for np) (final np ops) more) = Some k -> head (final np ops) <> 0 -> k < fc (final np ops).
-Check known_classes_cover : forall np ops, np < 2 ^ 32 -> known_class_tr np (run np ops) = 0 -> property_ok np (run np ops) = true.
-Check agreeing_case_outside_known_classes : forall np ctr, np < 2 ^ 32 -> model_agrees (Case np ctr) = true -> known_class (Case np ctr) = 0 -> spec_ok (Case np ctr) = true.
-Check free_count_exact_refuted : exists np ops, disciplined np (run np ops) = true /\ no_bad_deref (run np ops) = true /\ safe (run np ops) = true /\ count_exact (run np ops) = false.
-Check page0_deref_refuted : exists np ops, disciplined np (run np ops) = true /\ safe (run np ops) = false /\ run np ops = [E (Poke 0 5 1) OOk 0 0; E (Poke 0 6 7) OOk 0 0; E (Rel 3) OOk 3 1; E (Rel 4) OOk 3 2; E Alloc (OSome 4) 0 1; E Alloc (OSome 7) 0 0].
+Check v0_free_count_exact_refuted : run_v0 8 [Rel 3; Alloc] = [E (Rel 3) OOk 3 1; E Alloc ONone 0 0] /\ disciplined 8 (run_v0 8 [Rel 3; Alloc]) = true /\ count_exact (run_v0 8 [Rel 3; Alloc]) = false.
+Check v0_page0_deref_refuted : let ops := [Poke 0 5 1; Poke 0 6 7; Rel 3; Rel 4; Alloc; Alloc] in disciplined 8 (run_v0 8 ops) = true /\ safe (run_v0 8 ops) = false /\ run_v0 8 ops = [E (Poke 0 5 1) OOk 0 0; E (Poke 0 6 7) OOk 0 0; E (Rel 3) OOk 3 1; E (Rel 4) OOk 3 2; E Alloc (OSome 4) 0 1; E Alloc (OSome 7) 0 0].
 
-Print Assumptions alloc_safety.
-Print Assumptions safety_until_page0_deref.
+Print Assumptions freelist_refines_bag.
+Print Assumptions free_count_exact.
+Print Assumptions drain_returns_free_count.
+Print Assumptions property_holds.
+Print Assumptions agreeing_case_satisfies_property.
 Print Assumptions count_not_under_all.
-Print Assumptions reported_le_released.
-Print Assumptions free_count_overcounts.
-Print Assumptions known_classes_cover.
-Print Assumptions agreeing_case_outside_known_classes.
-Print Assumptions free_count_exact_refuted.
-Print Assumptions page0_deref_refuted.
+Print Assumptions v0_free_count_exact_refuted.
+Print Assumptions v0_page0_deref_refuted.
